@@ -660,7 +660,7 @@ pub fn replay(part: &str, case: serde_json::Value) -> Option<CaseResult> {
 pub fn meta() -> EvidenceMeta {
     EvidenceMeta {
         level: "exploration",
-        rule: "cases = roller configuration (base in {0,1,3,9,99,u32::MAX-count,u32::MAX-count+1}, count 0-6, 17 patterns (incl. an index that lands in a directory component only after the variable is expanded; the variable's value may change between two rolls): index in file name / directory component / twice, non-ASCII, spaces, $ENV{set}/$ENV{unset} references, .gz/.zst) x initial directory (empty, contiguous prefix, gaps, archives outside the window, bystander files/dirs) x 1-10 successive Roll::roll calls (the archive directories may be cleared away between two of them) on freshly written files (empty, small, ~10 kB, 70-400 kB incompressible; file and directory names that are not valid UTF-8; in the background-rotation build temp-file look-alikes <stem>.<unix second> for the coming seconds lie in the directory); oracle over full recursive snapshots before/after each roll: rolled path gone, index base holds the rolled bytes (decompressed with flate2/zstd when requested), exact shift base+j <- base+j-1 for gap-free windows, oldest evicted only when the window was full, with gaps the charitable ordered-list relation, every file outside the managed names byte-identical and no new file elsewhere; count 0 / delete roller: only the rolled file disappears. non-trivial = eviction reached with count >= 3, or initial gaps, or index in a directory component, or compression".into(),
+        rule: "cases = roller configuration (base in {0,1,3,9,99,u32::MAX-count,u32::MAX-count+1}, count 0-6, 17 patterns (incl. an index that lands in a directory component only after the variable is expanded; the variable's value may change between two rolls): index in file name / directory component / twice, non-ASCII, spaces, $ENV{set}/$ENV{unset} references, .gz/.zst) x initial directory (empty, contiguous prefix, gaps, archives outside the window, bystander files/dirs) x 1-10 successive Roll::roll calls (the archive directories may be cleared away between two of them) on freshly written files (empty, small, ~10 kB, 70-400 kB incompressible; file and directory names that are not valid UTF-8; in the background-rotation build temp-file look-alikes <stem>.<unix second> for the coming seconds lie in the directory); oracle over full recursive snapshots before/after each roll: rolled path gone, index base holds the rolled bytes (decompressed with flate2/zstd when requested), exact shift base+j <- base+j-1 for gap-free windows, oldest evicted only when the window was full, with gaps the charitable ordered-list relation, every file outside the managed names byte-identical and no new file elsewhere; count 0 / delete roller: only the rolled file disappears. Further inputs (rounds 10-14): the rolled file may be a symbolic link (the link is archived, its target is a bystander, nothing may remain at the path); windows of 33-70 slots; bystanders whose names merely look like an index (007, +3, '3 ', 0x3 ...); patterns with '..' after a symbolic link to a directory or a variable worth two components; relative patterns and a change of the working directory between two rolls; futile roll attempts (nothing / a non-empty directory at the rolled path) over which no archive may be lost. non-trivial = eviction reached with count >= 3, or initial gaps, or index in a directory component, or compression".into(),
         assumptions: vec!["archive names computed with the harness's own single-pass $ENV expander".into()],
         mutants_caught: vec![],
     }
